@@ -76,6 +76,30 @@ macro_rules! respace {
     };
 }
 
+macro_rules! respace_mg {
+    ($name:ident, $spec:expr, $mg:expr, [$($a:expr),*], $ta:expr, [$($b:expr),*], $tb:expr, $maxt:expr, $want:expr) => {
+        #[cfg(kani)]
+        #[kani::proof]
+        fn $name() {
+            let spec: Spec = $spec;
+            let tok_owned = tokenizer_of(&spec, true, $mg);
+            let tok = &tok_owned;
+            let conn = matrix_of(tok.dictionary().verif_connector());
+            let mut w1 = tok.new_worker();
+            w1.reset_sentence($ta);
+            w1.verif_tokenize_with(conn);
+            let mut w2 = tok.new_worker();
+            w2.reset_sentence($tb);
+            w2.verif_tokenize_with(conn);
+            same_tokens(&w1, &[$($a),*], &w2, &[$($b),*], $maxt);
+            kani::cover!(w1.num_tokens() == $want);
+            core::mem::forget(w1);
+            core::mem::forget(w2);
+            core::mem::forget(tok_owned);
+        }
+    };
+}
+
 //@ c12_leading {"desc":"adding a leading space run changes nothing: \"a\" vs \"<sp>a\"","bounds":"N=1 vs N=2; dictionary S12 meeting the precondition","symbolic":"costs, ids, matrix","functions":["Tokenizer::ignore_space","Tokenizer::build_lattice_inner","Lattice::insert_node","Lattice::insert_eos","Lattice::append_top_nodes"],"fs":2048,"unwind":7,"timeout":1200,"mem_gb":16}
 respace!(c12_leading, S12, [A], "\u{1}", [SP, A], "\u{4}\u{1}", 2, 1);
 //@ c12_trailing {"desc":"adding a trailing space run changes nothing: \"a\" vs \"a<sp>\"","bounds":"N=1 vs N=2; dictionary S12","symbolic":"costs, ids, matrix","functions":["Tokenizer::build_lattice_inner","Lattice::insert_eos","Lattice::append_top_nodes"],"fs":2048,"unwind":7,"timeout":1200,"mem_gb":16}
@@ -84,6 +108,10 @@ respace!(c12_trailing, S12, [A], "\u{1}", [A, SP], "\u{1}\u{4}", 2, 1);
 respace!(c12_leading_unknown, S12, [C], "\u{3}", [SP, C], "\u{4}\u{3}", 2, 1);
 //@ c12_space_run_nogroup {"desc":"a run of two spaces is skipped as a whole even when the SPACE category itself is declared non-grouping (group=0): \"<sp><sp>\" vs \"<sp>\" both yield no tokens","bounds":"N=2 vs N=1; dictionary S12D (SPACE: invoke 1, group 0, length 1)","symbolic":"costs, ids, matrix","functions":["Tokenizer::build_lattice_inner","Sentence::compute_groupable"],"fs":2048,"unwind":7,"timeout":1200,"mem_gb":16,"covers":"none"}
 respace!(c12_space_run_nogroup, S12D, [SP, SP], "\u{4}\u{4}", [SP], "\u{4}", 2, 0);
+//@ c12_space_run_maxgroup1 {"desc":"max_grouping_len limits unknown-word grouping, not the skipping of spaces: with max_grouping_len=1 a run of two spaces is still skipped as a whole (\"<sp><sp>\" vs \"<sp>\", no tokens)","bounds":"N=2 vs N=1; dictionary S12; max_grouping_len=1","symbolic":"costs, ids, matrix","functions":["Tokenizer::max_grouping_len","Tokenizer::build_lattice_inner","Lattice::insert_eos"],"fs":2048,"unwind":7,"timeout":1200,"mem_gb":16}
+respace_mg!(c12_space_run_maxgroup1, S12, 1, [SP, SP], "\u{4}\u{4}", [SP], "\u{4}", 2, 0);
+//@ c12_leading_run_maxgroup1 {"tier":"thorough","desc":"as c12_space_run_maxgroup1 with a word after the run: \"<sp><sp>a\" vs \"<sp>a\"","bounds":"N=3 vs N=2; dictionary S12; max_grouping_len=1","symbolic":"costs, ids, matrix","functions":["Tokenizer::max_grouping_len","Tokenizer::build_lattice_inner"],"fs":2048,"unwind":7,"timeout":2400,"mem_gb":24}
+respace_mg!(c12_leading_run_maxgroup1, S12, 1, [SP, SP, A], "\u{4}\u{4}\u{1}", [SP, A], "\u{4}\u{1}", 2, 1);
 const S12S3: Spec = Spec { sys: L_A_AB, user: None, cats: CATS_SPACE3, unk_mult: &[1, 1, 1, 1], nr: 2, nl: 2 };
 //@ c12_leading_space_is_fourth_category {"tier":"thorough","desc":"leading space run with SPACE declared as the fourth category (id 3): \"a\" vs \"<sp>a\"","bounds":"N=1 vs N=2; 4 categories, SPACE last","symbolic":"costs, ids, matrix","functions":["Tokenizer::ignore_space","Tokenizer::build_lattice_inner"],"fs":2048,"unwind":7,"timeout":1200,"mem_gb":16}
 respace!(c12_leading_space_is_fourth_category, S12S3, [A], "\u{1}", [SP, A], "\u{4}\u{1}", 2, 1);
